@@ -64,6 +64,14 @@ let spec_c05 stream obs =
   (match runs with
    | a :: rest -> if not (List.for_all (fun b -> sched_ok a b) rest) then bad := "sched" :: !bad
    | [] -> bad := "shape" :: !bad);
+  (* for clean streams the item sequence is fixed by the stream alone (theorem C05_schedule_independent_clean) *)
+  if clean_stream st then begin
+    let want = spec_items st in
+    let same o = List.length o = List.length want
+                 && List.for_all2 (fun (it, _) w -> match it, w with
+                     | Line a, Line b -> a = b | E2big, E2big -> true | Dead, Dead -> true | _ -> false) o want in
+    if not (List.for_all same runs) then bad := "clean" :: !bad
+  end;
   if !bad = [] then "ok" else "bad:" ^ String.concat "," (List.rev !bad)
 
 let spec fs obs = match fs, obs with
